@@ -239,6 +239,20 @@ theorem checkC18_iff (a b : List Char) (o : PairObs) : checkC18 a b o = none ↔
   rw [bne_bool_false (y := occursB _ _), bne_bool_false (y := occursB _ _), occursB_iff, occursB_iff]
   simp only [bne_eq_false_iff_eq, Bool.and_eq_false_imp, Bool.not_eq_eq_eq_not, Bool.not_false]
 
+/-- the checker for supplied folded texts decides the literal reading of C18 for those texts -/
+theorem checkC18Folded_iff (la lb a b : List Char) (o : PairObs) :
+    checkC18Folded la lb a b o = none ↔ C18_HoldsFolded la lb a b o := by
+  simp only [checkC18Folded, ite_none, C18_HoldsFolded, bne_beq_false, bne_decide_false, and_true]
+  rw [bne_bool_false (y := occursB _ _), bne_bool_false (y := occursB _ _), occursB_iff, occursB_iff]
+  simp only [bne_eq_false_iff_eq, Bool.and_eq_false_imp, Bool.not_eq_eq_eq_not, Bool.not_false]
+
+/-- with the ASCII folding of the model it is the same checker / the same proposition -/
+theorem checkC18Folded_lower (a b : List Char) (o : PairObs) :
+    checkC18Folded (ICase.lower a) (ICase.lower b) a b o = checkC18 a b o := rfl
+
+theorem C18_HoldsFolded_lower (a b : List Char) (o : PairObs) :
+    C18_HoldsFolded (ICase.lower a) (ICase.lower b) a b o ↔ C18_Holds a b o := Iff.rfl
+
 /-! ### laws on three strings -/
 
 /-- **C18 (triples)**: for all strings and every hash function the observations on `(a,b)`, `(b,c)`, `(a,c)`
